@@ -1319,14 +1319,15 @@ func (x *Exec) appendArr(st *State, s, arr, n *Term) *Term {
 		}
 		return x.define(st, "append", x.mkSlice(s.Sort, cur, Add(sl, n)))
 	}
-	// general case: fresh array characterised by a quantified fact
-	res := x.freshConst(st, "appendarr", sa.Sort)
-	i := &Term{Kind: KApp, Op: "i!a", Sort: SInt}
-	st.assume(Forall([]BVar{{"i!a", SInt}}, And(
-		Implies(And(Ge(i, IntLit(0)), Lt(i, sl)), Eq(Select(res, i), Select(sa, i))),
-		Implies(And(Ge(i, sl), Lt(i, Add(sl, n))), Eq(Select(res, i), Select(arr, Sub(i, sl)))))), "append contents")
-	return x.mkSlice(s.Sort, res, Add(sl, n))
+	// general case: a named append function of the two (array, length) pairs, characterised by axioms
+	name := "append$" + sortMangle(s.Sort)
+	if _, ok := x.prog.U.Funs[name]; !ok {
+		x.prog.declAppend(name, s.Sort, sa.Sort)
+	}
+	other := x.mkSlice(s.Sort, arr, n)
+	return x.define(st, "append", SymApp(name, s.Sort, s, other))
 }
+
 
 // isValueType: values of this type carry no references into the heap.
 func isValueType(t types.Type) bool {
@@ -1597,4 +1598,28 @@ func rootIsFreeVar(v ssa.Value) bool {
 			return false
 		}
 	}
+}
+
+// declAppend declares append$S(s, t) with its defining axioms (length and elements).
+func (p *Program) declAppend(name string, ss, as Sort) {
+	p.U.AddFun(&FunDecl{Name: name, Params: []BVar{{"s", ss}, {"t", ss}}, Ret: ss})
+	sv := &Term{Kind: KApp, Op: "s", Sort: ss}
+	tv := &Term{Kind: KApp, Op: "t", Sort: ss}
+	iv := &Term{Kind: KApp, Op: "i", Sort: SInt}
+	app := SymApp(name, ss, sv, tv)
+	ln := func(t *Term) *Term { return App(string(ss)+"$len", SInt, t) }
+	ar := func(t *Term) *Term { return App(string(ss)+"$arr", as, t) }
+	p.U.Axioms = append(p.U.Axioms, &Axiom{Name: name + "_len", T: Forall([]BVar{{"s", ss}, {"t", ss}},
+		Eq(ln(app), Add(ln(sv), ln(tv))), []*Term{app})})
+	p.U.Axioms = append(p.U.Axioms, &Axiom{Name: name + "_elems", T: Forall([]BVar{{"s", ss}, {"t", ss}, {"i", SInt}},
+		And(Implies(And(Ge(iv, IntLit(0)), Lt(iv, ln(sv))), Eq(Select(ar(app), iv), Select(ar(sv), iv))),
+			Implies(And(Ge(iv, ln(sv)), Lt(iv, Add(ln(sv), ln(tv)))), Eq(Select(ar(app), iv), Select(ar(tv), Sub(iv, ln(sv)))))),
+		[]*Term{Select(ar(app), iv)})})
+	// the same facts, triggered from the operand side (needed to show membership in the result)
+	p.U.Axioms = append(p.U.Axioms, &Axiom{Name: name + "_left", T: Forall([]BVar{{"s", ss}, {"t", ss}, {"i", SInt}},
+		Implies(And(Ge(iv, IntLit(0)), Lt(iv, ln(sv))), Eq(Select(ar(app), iv), Select(ar(sv), iv))),
+		[]*Term{app, Select(ar(sv), iv)})})
+	p.U.Axioms = append(p.U.Axioms, &Axiom{Name: name + "_right", T: Forall([]BVar{{"s", ss}, {"t", ss}, {"i", SInt}},
+		Implies(And(Ge(iv, IntLit(0)), Lt(iv, ln(tv))), Eq(Select(ar(app), Add(ln(sv), iv)), Select(ar(tv), iv))),
+		[]*Term{app, Select(ar(tv), iv)})})
 }
